@@ -11,7 +11,8 @@ package main
 // No meaning is attached here; Properties/C13_gen.v states the obligations (no
 // method re-acquires a lock it holds, directly or through callees; the lock kinds
 // are those of the model; the only send under a lock is subscribe's send into its
-// own fresh channel).
+// own fresh channel; every lock is followed at once by its deferred unlock, except
+// SetMasterHead's explicit unlocks).
 
 import (
 	"bytes"
@@ -29,6 +30,7 @@ type c13Method struct {
 	callsAll  []string
 	callsHeld []string
 	sendsHeld int
+	deferNext bool // the statement right after the Lock/RLock statement is the matching deferred unlock
 }
 
 func c13RecvOf(fd *ast.FuncDecl) (typ, name string) {
@@ -104,6 +106,24 @@ func c13Analyse(fd *ast.FuncDecl, typ, recv string, methods map[string]bool) c13
 		}
 		return true
 	})
+	// lock; defer unlock  as two adjacent top-level statements: released on every path
+	for i, st := range fd.Body.List {
+		es, ok := st.(*ast.ExprStmt)
+		if !ok {
+			continue
+		}
+		lk := c13MuCall(es.X, recv)
+		if lk != "Lock" && lk != "RLock" {
+			continue
+		}
+		if i+1 < len(fd.Body.List) {
+			if ds, ok := fd.Body.List[i+1].(*ast.DeferStmt); ok {
+				ul := c13MuCall(ds.Call, recv)
+				m.deferNext = (lk == "Lock" && ul == "Unlock") || (lk == "RLock" && ul == "RUnlock")
+			}
+		}
+		break
+	}
 	held := func(p token.Pos) bool {
 		return m.kind != 0 && p > lockPos && (deferred || p < lastUnlock)
 	}
@@ -194,16 +214,17 @@ func genC13() {
 	b.WriteString("(* generated by harness/cmd/translate (genC13) from liteapi/pool/conn_pool.go and connection.go; do not edit *)\n")
 	b.WriteString("From Coq Require Import List String NArith.\nImport ListNotations.\nLocal Open Scope string_scope.\n\n")
 	b.WriteString("(* receiver type, method, lock of the receiver taken (0 none, 1 RLock, 2 Lock), same-receiver methods\n")
-	b.WriteString("   called, same-receiver methods called while the lock is held, blocking sends while the lock is held *)\n")
+	b.WriteString("   called, same-receiver methods called while the lock is held, blocking sends while the lock is held,\n")
+	b.WriteString("   the statement right after the Lock/RLock statement is the matching deferred unlock *)\n")
 	b.WriteString("Record lock_fact := mkLF { lf_type : string; lf_name : string; lf_kind : N;\n")
-	b.WriteString("  lf_calls : list string; lf_calls_held : list string; lf_sends_held : N }.\n\n")
+	b.WriteString("  lf_calls : list string; lf_calls_held : list string; lf_sends_held : N;\n  lf_defer_next : bool }.\n\n")
 	b.WriteString("Definition pool_lock_facts : list lock_fact := [\n")
 	for i, m := range ms {
 		sep := ";"
 		if i == len(ms)-1 {
 			sep = ""
 		}
-		fmt.Fprintf(&b, "  mkLF %q %q %d %s %s %d%s\n", m.recvType, m.name, m.kind, c13StrList(m.callsAll), c13StrList(m.callsHeld), m.sendsHeld, sep)
+		fmt.Fprintf(&b, "  mkLF %q %q %d %s %s %d %v%s\n", m.recvType, m.name, m.kind, c13StrList(m.callsAll), c13StrList(m.callsHeld), m.sendsHeld, m.deferNext, sep)
 	}
 	b.WriteString("].\n")
 	writeIfChanged(filepath.Join(*out, "PoolLocks.v"), b.Bytes())
